@@ -25,7 +25,7 @@ Definition op_tables (p : op) : list nat :=
   match p with
   | OCtor _ _ _ _ _ => []
   | OCtorFrom src _ _ _ | OSelect src _ => [src]
-  | OSetSel t _ src | OAppend t src => [t; src]
+  | OSetSel t _ src | OAppend t src | OSetItemFrom t _ src _ => [t; src]
   | OAppendField t _ _ | OSetItem t _ _ | ORemove t _ | ORename t _ _ | OTidy t _ | OSort t _ _
   | OConvert t _ _ | OSetDtype t _ _ | OIndices t => [t]
   end.
@@ -56,6 +56,8 @@ Proof.
   - destruct (G src (or_intror (or_introl eq_refl))) as [a2 ->]. apply s_put_table_not_stuck.
   - unfold s_sort. destruct (assoc n (acols a)) as [key|] eqn:A; [|apply s_put_table_not_stuck].
     cbn [oracle_ok] in Hor. rewrite (Hor a key Ha A). apply s_put_table_not_stuck.
+  - destruct (G src (or_intror (or_introl eq_refl))) as [a2 ->].
+    destruct (assoc m (acols a2)); [apply s_put_table_not_stuck | cbn; discriminate].
 Qed.
 
 Theorem progress : forall ops p, Forall op_wf ops -> op_wf p ->
@@ -83,6 +85,8 @@ Proof.
       try (cbn; discriminate);
       try (match goal with |- context [s_put_table _ _ ?r] => destruct r; cbn; intros; try discriminate; reflexivity end);
       try (match goal with |- context [s_new_table _ ?r] => destruct r; cbn; intros; try discriminate; reflexivity end).
-    destruct (s_sort a n perm) as [r|]; [destruct r; cbn; intros; try discriminate; reflexivity | cbn; discriminate]. }
+    - destruct (s_sort a n perm) as [r|]; [destruct r; cbn; intros; try discriminate; reflexivity | cbn; discriminate].
+    - destruct (assoc m (acols a0)); [|cbn; intros; reflexivity].
+      match goal with |- context [s_put_table _ _ ?r] => destruct r; cbn; intros; try discriminate; reflexivity end. }
   specialize (Q (absw w) p e). rewrite <- S in Q. cbn [fst snd] in Q. apply Q; reflexivity.
 Qed.
